@@ -225,12 +225,14 @@ def drain_before_restore(ctx, db, rid_='C05.drain-before-restore'):
     T = htracer(db)
     # the local(s) of install_queue_and_call that hold the previous mode flag: initialised by the exchange on instance, or by a plain read of it
     saved_names = set()
-    for f_ in db.fns('cocls::coro_queue::install_queue_and_call'):
-        for e_ in f_.events():
-            if e_.k == 'decl' and e_.get('init') in ('call(std::exchange)', INSTANCE):
-                ie = f_.ev(e_.get('init_ev')) if e_.get('init_ev') is not None else None
-                if e_.get('init') == INSTANCE or (ie is not None and (ie.get('args') or [{}])[0].get('path') == INSTANCE):
-                    saved_names.add(e_['var'])
+    for f_ in db.fns('cocls::coro_queue::install_queue_and_call')[:2]:
+        for tr_ in T.traces(f_):
+            for i_, e_ in enumerate(tr_):
+                if e_.k == 'decl' and e_.get('depth', 0) == 0 and e_.get('init'):
+                    # directly, or through a helper that returns the exchanged value (queue_impl *prev = install_queue();)
+                    o_ = origin_in_trace(tr_, i_ + 1, e_.get('var') if (e_.get('var') or '').startswith('local:') else 'local:' + (e_.get('var') or ''))[0] or ''
+                    if o_ == INSTANCE or o_ == 'call(std::exchange)':
+                        saved_names.add((e_.get('var') or '').replace('local:', ''))
     seen = set()
     for lf in lams:
         if lf['key'] in seen:
@@ -256,18 +258,22 @@ def drain_before_restore(ctx, db, rid_='C05.drain-before-restore'):
                trace=fmt_trace(bad[1]) if bad else None)
     # the trailer object is created before fn is called, in the same function, and holds the lambda
     for f in db.need('cocls::coro_queue::install_queue_and_call')[:1]:
-        evl = list(f.events())
-        ex = next((e for e in evl if e.k == 'call' and norm(e.get('callee')) == 'std::exchange' and e.get('args') and e['args'][0].get('path') == INSTANCE), None)
-        tr_ = next((e for e in evl if e.k == 'construct' and norm(e.get('callee')) == 'cocls::trailer::trailer'), None)
-        dt = next((e for e in evl if e.k == 'dtor' and 'trailer' in (e.get('type') or '')), None)
-        ok = ex is not None and tr_ is not None and dt is not None and 'queue_impl::instance' in (ex['args'][1].get('path') or '')
-        if ex is None and tr_ is not None and dt is not None:
-            # the same without std::exchange (the flag is thread-local): previous value read into a local, then the thread's queue assigned, both before the trailer
-            sv = next((e for e in evl if e.k == 'decl' and (e.get('init') or '') == INSTANCE), None)
-            wr = next((e for e in evl if e.k == 'write' and (e.get('path') or '') == INSTANCE and 'queue_impl::instance' in (e.get('rhs') or '')), None)
-            T0 = Tracer(db, depth=0)
-            ok = sv is not None and wr is not None and all((index_of(tr, lambda ev: ev.get('id') == sv['id'] and ev.k == 'decl') < index_of(tr, lambda ev: ev.get('id') == wr['id'] and ev.k == 'write') < index_of(tr, lambda ev: ev.get('id') == tr_['id'] and ev.k == 'construct'))
-                                                            and index_of(tr, lambda ev: ev.get('id') == sv['id'] and ev.k == 'decl') >= 0 for tr in T0.traces(f) if live(tr))
+        # on every path: the previous flag is saved and the thread's own queue installed (one std::exchange, or read + assign; possibly inside a
+        # helper), then the trailer object is created, and it is a local whose destructor runs on every exit
+        ok = True; nlive = 0
+        for tr in T.traces(f):
+            if not live(tr):
+                continue
+            nlive += 1
+            ins = index_of(tr, lambda ev: (ev.k == 'call' and norm(ev.get('callee')) == 'std::exchange' and ev.get('args') and ev['args'][0].get('path') == INSTANCE and 'queue_impl::instance' in (ev['args'][1].get('path') or '')) or
+                           (ev.k == 'write' and (ev.get('path') or '') == INSTANCE and 'queue_impl::instance' in (ev.get('rhs') or '')))
+            plain = ins >= 0 and tr[ins].k == 'write'
+            sv = index_of(tr, lambda ev: ev.k == 'decl' and (ev.get('init') or '') == INSTANCE) if plain else 0
+            tc = index_of(tr, lambda ev: ev.k == 'construct' and norm(ev.get('callee')) == 'cocls::trailer::trailer')
+            dt = [i for i, ev in enumerate(tr) if ev.k == 'dtor' and 'trailer' in (ev.get('type') or '')]
+            if not (ins >= 0 and 0 <= sv <= ins < tc and dt and dt[-1] > tc):
+                ok = False
+        ok = ok and nlive > 0
         ctx.ob(rid, f, f['key'], ok, 'install_queue_and_call saves the previous flag by exchange, installs the thread\'s queue and arms a trailer whose destructor runs on every exit',
                desc='install_queue_and_call no longer exchange+trailer')
     for f in db.need('cocls::trailer::~trailer')[:1]:
@@ -381,7 +387,7 @@ def pause_rule(ctx, db, rid_='C05.pause-round-robin'):
             if not ret or not ((ret[-1].get('path') or '') == 'param:h' or (o is not None and o.get('id') == ops[1][2].get('id'))):
                 pass
             wr = [it for it in tr if it.k == 'call' and norm(it.get('callee') or '').endswith('operator=') and it.get('recv') == 'param:h']
-            if not wr and not (o is not None and norm(o.get('callee') or '') == 'std::deque::front') and origin_in_trace(tr, len(tr), ret_expr(tr))[0] != 'call(std::deque::front)':
+            if not wr and not (o is not None and norm(o.get('callee') or '') == 'std::deque::front') and origin_in_trace(tr, len(tr), resolve_select(ret_expr(tr) or '', tr))[0] != 'call(std::deque::front)':
                 bad = bad or ('the coroutine transferred to is not the head taken from the queue', tr)
         ctx.ob(rid, f, f['key'], bad is None, 'push_back(self) < front < pop_front, transfer to the head' + ('' if not bad else ' -- ' + bad[0]), desc=bad[0] if bad else None,
                trace=fmt_trace(bad[1]) if bad else None)
